@@ -19,6 +19,7 @@ import (
 	"rscheck/driver"
 	"rscheck/flow"
 	"rscheck/grammar"
+	"rscheck/lin"
 	"rscheck/pat"
 	"rscheck/rules/arith"
 )
@@ -664,7 +665,82 @@ func r5(c *core.Ctx, rov, nbe *core.Fn) {
 		return
 	}
 	r5hash(c, rov, cc)
+	r5reset(c, rov, sw, cc)
 	r5cont(c, nbe)
+}
+
+// r5reset: a value that is not a chunked hash leaves the chunk state neutral.
+// NextBinEntry derives RealMemberCount from lastReadCount/totMemberCount and
+// the continuation of a key from remainMember; all three are reset by every
+// other value type, otherwise the counters of a preceding hash make the next
+// entry look like a piece of a split key.
+func r5reset(c *core.Ctx, rov *core.Fn, sw *ast.SwitchStmt, hash *ast.CaseClause) {
+	info := rov.Pkg.TypesInfo
+	e := flow.New(c.Program)
+	g := cfgq.Of(c.Program, rov)
+	fields := []string{"lastReadCount", "remainMember", "totMemberCount"}
+	isField := func(v *types.Var) bool {
+		if v.Pkg() == nil || !strings.HasSuffix(v.Pkg().Path(), pkg) {
+			return false
+		}
+		for _, f := range fields {
+			if v.Name() == f {
+				return true
+			}
+		}
+		return false
+	}
+	// resets that precede the switch count for every clause
+	before := map[string]bool{}
+	for _, st := range rov.Decl.Body.List {
+		if st == ast.Stmt(sw) {
+			break
+		}
+		for _, s := range e.Stores(g, st, isField) {
+			if v, ok := core.IntConst(s.G.Info, s.RHS); ok && v == 0 && s.Plain() {
+				before[s.Field.Name()] = true
+			}
+		}
+	}
+	n := 0
+	for _, cl := range sw.Body.List {
+		cc := cl.(*ast.CaseClause)
+		if cc == hash || cc.List == nil || len(cc.Body) == 0 {
+			continue
+		}
+		if len(cc.Body) == 1 {
+			if b, ok := cc.Body[0].(*ast.BranchStmt); ok && b.Tok == token.FALLTHROUGH {
+				continue
+			}
+		}
+		label := ""
+		for _, l := range cc.List {
+			if v, ok := core.IntConst(info, l); ok {
+				label = fmt.Sprintf("%d", v)
+			}
+		}
+		got := map[string]bool{}
+		for k := range before {
+			got[k] = true
+		}
+		for _, s := range e.Stores(g, &ast.BlockStmt{List: cc.Body}, isField) {
+			if v, ok := core.IntConst(s.G.Info, s.RHS); ok && v == 0 && s.Plain() {
+				got[s.Field.Name()] = true
+			}
+		}
+		var miss []string
+		for _, f := range fields {
+			if !got[f] {
+				miss = append(miss, f)
+			}
+		}
+		n++
+		c.Check("R5.chunk", "reset/type-"+label, cc.Pos(), len(miss) == 0,
+			fmt.Sprintf("a value that is not a chunked hash resets lastReadCount, remainMember and totMemberCount; the case of type %s leaves %s as the previous value set it: after a hash the next entry is reported with a RealMemberCount / continuation state that is not its own (it is restored element by element, without the key_exists check, or taken for a continuation)", label, strings.Join(miss, ", ")))
+	}
+	if n < 3 {
+		c.Undecidedf("instances", "R5.chunk/reset", sw.Pos(), "only %d non-hash value cases found in readObjectValue, 3+ confirmed", n)
+	}
 }
 
 func isTopLevel(b *ast.BlockStmt, n ast.Node) bool {
@@ -738,7 +814,17 @@ func r6(c *core.Ctx) {
 		w2 := g.Path(cfgq.Query{From: g.Entry(), Avoid: call("Footer"), TargetExit: cfgq.NormalExit,
 			AvoidEdge: func(b *cfg.Block, s int) bool {
 				return g.Establishes(b, s, func(f cfgq.Fact) bool {
-					return pat.Expr("rdb.FromVersion > 2").Match(info, f.Expr, nil) != nil && !f.Val
+					// FromVersion <= 2, in any spelling (named constant, swapped operands, negated >)
+					cmp, ok := lin.CmpOf(info, f.Expr, f.Val)
+					if !ok || len(cmp.F.Coef) != 1 {
+						return false
+					}
+					for k := range cmp.F.Coef {
+						if strings.HasSuffix(k, "rdb.FromVersion") || k == "FromVersion" {
+							return cmp.Is(lin.Form{Coef: map[string]int64{k: 1}, Const: -2}, token.LEQ)
+						}
+					}
+					return false
 				})
 			}})
 		c.Check("R6.crc", "NewRDBLoader/footer-before-return", ft[0].Node().Pos(), w2 == nil, "the loader goroutine ends only after the end-of-file checksum verified (guarded only by FromVersion > 2)", w2...)
@@ -860,7 +946,7 @@ func r8(c *core.Ctx) {
 					}
 					return core.ObjOf(info, e)
 				}
-				filled, sameBase := false, false
+				filled, sameBase, partial := false, false, false
 				core.Inspect(fd.Body, func(m2 ast.Node) bool {
 					rc, ok := m2.(*ast.CallExpr)
 					if !ok || rc.Pos() >= call.Pos() {
@@ -872,7 +958,11 @@ func r8(c *core.Ctx) {
 					}
 					for _, a := range rc.Args {
 						if pat.Same(info, a, call.Args[0]) {
-							filled = true
+							if fo.Name() == "Read" {
+								partial = true // one Read may deliver fewer bytes than asked for
+							} else {
+								filled = true
+							}
 						} else if bo := baseOf(a); bo != nil && bo == baseOf(call.Args[0]) {
 							sameBase = true
 						}
@@ -889,7 +979,11 @@ func r8(c *core.Ctx) {
 				n++
 				c.Check("R8.width", fd.Name.Name, call.Pos(), width == k,
 					fmt.Sprintf("%s reads %d bytes but decodes %d of them: the remaining bytes are dropped and the value is taken from the wrong end (e.g. a 64-bit-form length below 2^32 decodes as 0)", fd.Name.Name, k, width))
-				c.Check("R8.width", fd.Name.Name+"/fills-buffer", fd.Pos(), filled, "the fixed-width read fills exactly the slice that is decoded")
+				if partial && !filled {
+					c.Failf("R8.width", fd.Name.Name+"/fills-buffer", fd.Pos(), "%s fills the bytes it decodes with a single Read, which may deliver fewer bytes than asked for (a buffered or network reader at a chunk boundary): the value is then decoded from stale bytes — an intact file is rejected at the checksum, or an expiry/length is wrong", fd.Name.Name)
+				} else {
+					c.Check("R8.width", fd.Name.Name+"/fills-buffer", fd.Pos(), filled, "the fixed-width read fills exactly the slice that is decoded")
+				}
 				return true
 			})
 		}
